@@ -28,7 +28,8 @@ type Impl struct {
 	Recv    string // receiver type name
 	RecvT   *types.Named
 	Kinds   *kinds.Table
-	Methods map[string]*ast.FuncDecl // all methods on Recv by name
+	Methods map[string]*ast.FuncDecl // all methods on Recv by name (including those promoted from embedded structs of the package)
+	Embedded []*types.Named
 
 	nz *norm.N
 	strEnv map[types.Object][]strPart // dumper: local string variables on the current path
@@ -73,7 +74,68 @@ func FindImpl(p *load.Program, tb *kinds.Table, rel, recv string) (*Impl, error)
 	if !types.Implements(types.NewPointer(named), tb.Visitor) {
 		return nil, fmt.Errorf("*%s.%s does not implement ast.Visitor", rel, recv)
 	}
-	return &Impl{Prog: p, Pkg: pk, Rel: rel, Recv: recv, RecvT: named, Kinds: tb, Methods: load.Methods(pk, recv)}, nil
+	im := &Impl{Prog: p, Pkg: pk, Rel: rel, Recv: recv, RecvT: named, Kinds: tb, Methods: load.Methods(pk, recv)}
+	// methods promoted from structs of the same package embedded in the receiver type (state grouped in
+	// an embedded struct, its methods reached by promotion)
+	for _, en := range embeddedStructs(named, pk.Types, 0) {
+		im.Embedded = append(im.Embedded, en)
+		for name, fd := range load.Methods(pk, en.Obj().Name()) {
+			if _, shadowed := im.Methods[name]; !shadowed {
+				im.Methods[name] = fd
+			}
+		}
+	}
+	return im, nil
+}
+
+// embeddedStructs: the named struct types of package pkg embedded (by value or pointer) in n, transitively.
+func embeddedStructs(n *types.Named, pkg *types.Package, depth int) []*types.Named {
+	st, ok := n.Underlying().(*types.Struct)
+	if !ok || depth > 3 {
+		return nil
+	}
+	var out []*types.Named
+	for i := 0; i < st.NumFields(); i++ {
+		f := st.Field(i)
+		if !f.Embedded() {
+			continue
+		}
+		t := f.Type()
+		if p, ok := t.(*types.Pointer); ok {
+			t = p.Elem()
+		}
+		en, ok := t.(*types.Named)
+		if !ok || en.Obj().Pkg() != pkg {
+			continue
+		}
+		if _, isStruct := en.Underlying().(*types.Struct); !isStruct {
+			continue
+		}
+		out = append(out, en)
+		out = append(out, embeddedStructs(en, pkg, depth+1)...)
+	}
+	return out
+}
+
+// AllFields: the fields of the receiver type including those of embedded structs of the package.
+func (im *Impl) AllFields() []*types.Var {
+	var out []*types.Var
+	add := func(n *types.Named) {
+		if st, ok := n.Underlying().(*types.Struct); ok {
+			for i := 0; i < st.NumFields(); i++ {
+				if f := st.Field(i); !f.Embedded() {
+					out = append(out, f)
+				} else if _, isOurs := f.Type().(*types.Named); !isOurs {
+					out = append(out, f)
+				}
+			}
+		}
+	}
+	add(im.RecvT)
+	for _, en := range im.Embedded {
+		add(en)
+	}
+	return out
 }
 
 // KindMethods yields (kind, method decl) in kind order; missing methods are
@@ -168,8 +230,20 @@ func (im *Impl) methodCall(call *ast.CallExpr, recv types.Object) (string, bool)
 	if p, ok := rt.(*types.Pointer); ok {
 		rt = p.Elem()
 	}
-	if n, ok := rt.(*types.Named); !ok || n.Obj() != im.RecvT.Obj() {
+	n, ok := rt.(*types.Named)
+	if !ok {
 		return "", false
+	}
+	if n.Obj() != im.RecvT.Obj() {
+		promoted := false
+		for _, en := range im.Embedded {
+			if en.Obj() == n.Obj() {
+				promoted = true
+			}
+		}
+		if !promoted {
+			return "", false
+		}
 	}
 	return fn.Name(), true
 }
